@@ -257,7 +257,13 @@ func (fr *Frame) callWithArgs(s *State, g *Term, call *ssa.CallCommon, ins ssa.I
 			return r
 		}
 		if callee.Parent() != nil && callee.Blocks != nil {
-			return fr.inlineCall(s, g, callee, args, nil, fr.spec)
+			var bs []*Term
+			if ci := x.closures[fnv]; ci != nil && ci.fn == callee {
+				bs = ci.bindings
+			}
+			if len(bs) == len(callee.FreeVars) {
+				return fr.inlineCall(s, g, callee, args, bs, fr.spec)
+			}
 		}
 		if x.isLeafHelper(callee, 0) {
 			// a small loop-free helper of the repository that writes nothing and calls only modelled functions or
@@ -575,6 +581,37 @@ func (fr *Frame) applyContract(s *State, g *Term, fc *FuncContract, callee *ssa.
 			delete(s.ghost, name)
 		} else {
 			s.ghost[name] = v
+		}
+	}
+	// call-site assumptions stated by the calling function's contract (recorded as assumptions)
+	for top := fr; top != nil; top = top.parent {
+		if top.contract != nil {
+			for _, ca := range top.contract.CallAssumes {
+				if !strings.HasSuffix(fc.Key, ca.CbName) {
+					continue
+				}
+				ex := map[string]*Term{}
+				top.cbArgTypes = map[string]types.Type{}
+				if res != nil {
+					n := sig.Results().Len()
+					for i := 0; i < n; i++ {
+						name := fmt.Sprintf("ret%d", i)
+						if n == 1 {
+							ex[name] = res
+						} else {
+							ex[name] = res.args[i]
+						}
+						top.cbArgTypes[name] = sig.Results().At(i).Type()
+					}
+				}
+				t := top.evalClauseAt(ca, s, nil, ex)
+				x.assume(g, t)
+				x.note("assumed at call site (callassumes): " + shortKey(top.contract.Key) + " after " + shortKey(fc.Key) + ": " + ca.Text)
+				top.cbArgTypes = nil
+			}
+		}
+		if top.top {
+			break
 		}
 	}
 	for _, ce := range fc.CondEffects {
